@@ -15,7 +15,39 @@ if HERE not in sys.path:
     sys.path.insert(0, HERE)
 
 
+def apply_unified_diff(root, patch_text):
+    """Apply a unified diff to the current files in memory -> {relpath: new text}, or None if a hunk does not match."""
+    import re
+    overlay = {}
+    files = re.split(r'^diff --git ', patch_text, flags=re.M)[1:]
+    for blk in files:
+        m = re.search(r'^\+\+\+ b/(.*)$', blk, flags=re.M)
+        if not m:
+            continue
+        rel = m.group(1).strip()
+        full = os.path.join(root, rel)
+        if not os.path.exists(full):
+            return None
+        lines = open(full, encoding='utf8').read().split('\n')
+        hunks = re.split(r'^@@ .*?@@.*$', blk, flags=re.M)[1:]
+        for h in hunks:
+            hl = h.split('\n')[1:]
+            if hl and hl[-1] == '':
+                hl = hl[:-1]
+            old = [x[1:] for x in hl if x[:1] in (' ', '-')]
+            new = [x[1:] for x in hl if x[:1] in (' ', '+')]
+            pos = [i for i in range(len(lines) - len(old) + 1) if lines[i:i + len(old)] == old]
+            if len(pos) != 1:
+                return None
+            lines[pos[0]:pos[0] + len(old)] = new
+        overlay[rel] = '\n'.join(lines)
+    return overlay
+
+
 def _apply(root, case):
+    if case.get('patch'):
+        with open(case['patch'], encoding='utf8') as fh:
+            return apply_unified_diff(root, fh.read())
     overlay = {}
     for rel, old, new in case['edits']:
         full = os.path.join(root, rel)
@@ -47,7 +79,8 @@ def _run_case(args):
             if case.get('expect') == 'ANALYSIS-ERROR':
                 return case['id'], 'fired', 'analysis error (expected): %s' % err
             return case['id'], 'error', str(err)
-        hits = [r for r in reports if r.rule.startswith(case['expect'])]
+        exp = case['expect'] if isinstance(case['expect'], (list, tuple)) else [case['expect']]
+        hits = [r for r in reports if any(r.rule.startswith(e) for e in exp)]
         if hits:
             return case['id'], 'fired', hits[0].line()[:300]
         return case['id'], 'MISSED', 'no report of %s (other reports: %s)' % (case['expect'], [r.rule for r in reports][:5])
@@ -65,6 +98,15 @@ def cases_for(prop=None):
     for c in witnesses.CASES:
         if prop is None or c['prop'] == prop:
             out.append(c)
+    # confirmed seeded changes of independent sub-agents that some check detects: one witness per detecting property
+    import glob
+    import json
+    for mf in sorted(glob.glob(os.path.join(HERE, 'seeded', '*', 'meta.json'))):
+        meta = json.load(open(mf))
+        for p in meta.get('detected_by', []):
+            if prop is None or p == prop:
+                out.append(dict(id='seeded-%s@%s' % (meta['id'], p), prop=p, kind='witness', expect=p,
+                                patch=os.path.join(os.path.dirname(mf), 'patch.diff'), edits=[]))
     return out
 
 
